@@ -37,8 +37,10 @@ REGISTRATION = {
     "design_ref": "DESIGN.md §5 C10",
     "note": COMMON_NOTE + "Allocation is observed as TotalAlloc delta / fatal out-of-memory of the worker under RLIMIT_AS "
             "and compared as a class (a request between budget and 16x budget is accepted either way). The API-level "
-            "clause is a theorem for create's decoding loop (ggufLayers); the rest of CreateHandler/ShowHandler (gin, "
-            "layer files, template detection) is covered by the API driver only. Modelled, "
+            "clause is a theorem for create's decoding loop (ggufLayers + the typed accessors), for create-from (parseFromModel + "
+            "accessors: create_from_safe_tree) and for show (Capabilities + getModelData: show_safe_tree), each tied by an L1 comparison "
+            "of the handler's answer class (ok / err / death / never answers) with the model; the rest of CreateHandler/ShowHandler (gin, "
+            "layer files, template detection, JSON rendering) is covered by the API driver only. Modelled, "
             "not verified: bufio/bytes/io library behaviour, the Go allocator.",
 }
 
@@ -55,6 +57,9 @@ THEOREMS = [
     "OllamaVerif.C10.create_upload_terminates_tree",
     "OllamaVerif.C10.create_upload_safe_tree",
     "OllamaVerif.C10.witness_pinned_accessor_panics",
+    "OllamaVerif.C10.create_from_safe_tree",
+    "OllamaVerif.C10.show_safe_tree",
+    "OllamaVerif.C10.witness_pinned_from_and_show_panic",
     "OllamaVerif.Gguf.decodeFrom_progress",
     "OllamaVerif.C10.witness_pinned_create_never_answers",
     "OllamaVerif.C10.witness_alignment_zero",
